@@ -28,6 +28,7 @@ pub const CK_CAS_SPUR: u32 = 103;
 pub const CK_STALE: u32 = 104;
 pub const CK_FREEZE: u32 = 105;
 pub const CK_FAULT: u32 = 106;
+pub const CK_SYSCALL: u32 = 107;
 
 // event kinds
 pub const EV_LOAD: u16 = 1;
@@ -120,6 +121,7 @@ pub const C_QUIESCENT: usize = 19;
 pub const C_FLIP_WATCH: usize = 20;
 pub const C_STALLED_READER: usize = 21;
 pub const C_WAKE_CALLS: usize = 22;
+pub const C_SYS_EINTR: usize = 23;
 pub const C_ENGINE_BASE: usize = 32;
 
 // ---------------------------------------------------------------------------------------------
@@ -303,6 +305,7 @@ pub struct Thread {
     pub own_steps0: u64,
     pub name: &'static str,
     cas_spur_run: u32,
+    eintr_run: u32,
     pub in_store: u32,
     handler_entry_own: u64,
     held_mutexes: u32,
@@ -406,9 +409,14 @@ pub struct Sim {
     forced: Option<(usize, u64, usize)>,
     pub auto_thaw: bool,
     thread_panic_prop: Option<String>,
+    thread_panic_rules: Vec<(String, String)>,
     /// fault: stall one delivery that began after a writer's generation switch inside its read
     /// section until that writer has finished (Some(remaining uses))
     pub stall_later_reader: u32,
+    /// fault: percent chance that an interposed blocking recv() fails with EINTR (<= 2 in a row)
+    pub recv_eintr_pct: u32,
+    /// the thread that alone drains the self-pipe (iterator engine), if any
+    pub pipe_consumer: Option<usize>,
     stalled_for: Option<(usize, usize)>,
     /// how many consecutive fruitless solo spin points make a livelock (default 2)
     pub spin_patience: u32,
@@ -452,7 +460,10 @@ pub fn init(mode: ChooserMode) {
         forced: None,
         auto_thaw: false,
         thread_panic_prop: None,
+        thread_panic_rules: Vec::new(),
         stall_later_reader: 0,
+        recv_eintr_pct: 0,
+        pipe_consumer: None,
         stalled_for: None,
         spin_patience: 2,
         inject_at: None,
@@ -728,6 +739,7 @@ impl Thread {
             own_steps0: 0,
             name,
             cas_spur_run: 0,
+            eintr_run: 0,
             in_store: 0,
             handler_entry_own: 0,
             held_mutexes: 0,
@@ -1235,6 +1247,11 @@ pub fn set_thread_panic_prop(prop: &str) {
     let _g = ShimGuard::new();
     sim().thread_panic_prop = Some(prop.to_string());
 }
+/// ... unless its message contains `substr`: then it is a violation of `prop`.
+pub fn add_thread_panic_rule(substr: &str, prop: &str) {
+    let _g = ShimGuard::new();
+    sim().thread_panic_rules.push((substr.to_string(), prop.to_string()));
+}
 /// Number of self-pipe wake-up writes the calling thread has attempted so far.
 pub fn my_wake_calls() -> u64 {
     let s = sim();
@@ -1309,6 +1326,12 @@ pub fn spawn<F: FnOnce() + Send + 'static>(name: &'static str, f: F) -> usize {
         let _g = ShimGuard::new();
         if r.is_err() {
             let msg = format!("simulated thread {} ({}) panicked inside a library call: {}", id, name, shm::get_str(&shm::get().panic_msg));
+            let rules = sim().thread_panic_rules.clone();
+            for (sub, p) in rules.iter() {
+                if msg.contains(sub.as_str()) {
+                    report(p, "library-call-panicked", &msg, true);
+                }
+            }
             if let Some(p) = sim().thread_panic_prop.clone() {
                 report(&p, "library-call-panicked", &msg, true);
             }
@@ -1671,6 +1694,45 @@ pub fn cas_spurious() -> bool {
         true
     } else {
         sim().threads[me].cas_spur_run = 0;
+        false
+    }
+}
+
+pub fn set_pipe_consumer(t: usize) {
+    sim().pipe_consumer = Some(t);
+}
+pub fn pipe_consumer() -> Option<usize> {
+    sim().pipe_consumer
+}
+
+pub fn set_recv_eintr_pct(n: u32) {
+    sim().recv_eintr_pct = n;
+}
+
+/// Fault at the system-call seam: should this recv() on a simulated thread fail with EINTR (a
+/// handler installed without SA_RESTART by somebody else interrupted it)?  At most two in a row
+/// per thread, never inside a delivery.
+pub fn recv_eintr() -> bool {
+    if !on() {
+        return false;
+    }
+    let _g = ShimGuard::new();
+    let s = sim();
+    let me = s.cur;
+    let pct = s.recv_eintr_pct;
+    if pct == 0 || s.threads[me].handler_n > 0 {
+        return false;
+    }
+    if s.threads[me].eintr_run >= 2 {
+        s.threads[me].eintr_run = 0;
+        return false;
+    }
+    if coin(CK_SYSCALL, pct, 100) {
+        sim().threads[me].eintr_run += 1;
+        count(C_SYS_EINTR, 1);
+        true
+    } else {
+        sim().threads[me].eintr_run = 0;
         false
     }
 }
